@@ -51,7 +51,11 @@ func listItems(prop, tier string) []Item {
 		if n < 1 {
 			n = 1
 		}
-		items = append(items, Item{Kind: "seq", Name: j.Name, Shards: n, BudgetS: budget})
+		kind := "seq"
+		if j.Controlled {
+			kind = "seqc"
+		}
+		items = append(items, Item{Kind: kind, Name: j.Name, Shards: n, BudgetS: budget})
 	}
 	return items
 }
@@ -82,6 +86,12 @@ func seqJobList(prop, tier string) []*SeqJob {
 		return c18Jobs(tier)
 	case "C17":
 		return c17Jobs(tier)
+	case "C16":
+		return c16Jobs(tier)
+	case "C15":
+		return c15Jobs(tier)
+	case "C12":
+		return c12Jobs(tier)
 	}
 	return nil
 }
